@@ -1,6 +1,9 @@
 package sim
 
-import "time"
+import (
+	"strings"
+	"time"
+)
 
 type ForcedFault struct {
 	Index int       `json:"index"`
@@ -16,6 +19,7 @@ type RunConfig struct {
 	Forced   *ForcedFault `json:"forced,omitempty"`
 	MaxSteps int          `json:"max_steps,omitempty"`
 	Variant  string       `json:"variant,omitempty"` // profile-specific sub-mode
+	Sweep    string       `json:"sweep_ctrls,omitempty"` // comma separated controllers whose calls the single-fault sweep enumerates
 	KeepLog  bool         `json:"-"`
 	NoPark   bool         `json:"-"`
 	progress func()
@@ -117,6 +121,9 @@ func (s *Sim) DrawKnobs() {
 func (s *Sim) decideFaults(c *Call) resume {
 	r := resume{}
 	eligible := c.Task.Ctrl.UnderTest
+	if eligible && s.Cfg.Sweep != "" && (s.Cfg.Forced != nil || s.Cfg.NoFaults) {
+		eligible = strings.Contains(","+s.Cfg.Sweep+",", ","+c.Task.Ctrl.Name+",")
+	}
 	if eligible {
 		s.callIdx++
 		c.Idx = s.callIdx
